@@ -113,3 +113,9 @@ package state_machines
 //@   requires i != nil
 //@   pure
 //@   ensures[C19.dump.current] result1 == nil ==> fresh(result0)
+
+// Go's == on time.Time compares the monotonic clock reading and the location pointer as well; neither is part of the encoded
+// dump, so two stamps that are == in memory need not be == after a dump and restore (and the other way round). A machine
+// that decided anything by == on a stamp, or on a struct holding one, would behave differently after a restore (C19);
+// stamps are compared with Equal / Before / After only (one obligation per package)
+//@ noeq[C19.time.eq] fsm/fsm fsm/state_machines fsm/state_machines/internal fsm/state_machines/dkg_proposal_fsm fsm/state_machines/signature_proposal_fsm fsm/state_machines/signing_proposal_fsm fsm/types/requests : time.Time
